@@ -27,10 +27,13 @@ typedef uint64_t C06_SAMPT;
 /* malloc of the sample buffer (stub, trusted): the same allocation, written as `sizeof(sample) * count` so that cbmc gives the object
  * the element type the code accesses it with (one array operation per sample instead of one per byte: the byte-wise model of the
  * 64-bit instance needs 40 M clauses). The size the code asks for must be a whole number of samples -- asserted. */
+void *g_alloc, *g_freed;     /* ghosts: the pixel buffer this call allocated / the last block it released */
 static inline void* C06_malloc(size_t size) {
   __CPROVER_assert(size % sizeof(C06_SAMPT) == 0, "buffer size is a whole number of samples");
-  return malloc(sizeof(C06_SAMPT) * (size / sizeof(C06_SAMPT)));
+  g_alloc = malloc(sizeof(C06_SAMPT) * (size / sizeof(C06_SAMPT)));
+  return g_alloc;
 }
+static inline void C06_free(void* p) { g_freed = p; free(p); }
 
 size_t g_P;        /* ghost pixel number y*w + x */
 #ifndef C06_SAVE_H
@@ -62,14 +65,16 @@ C06_SAMPT g_v;     /* the sample of the FILE that the format assigns to channel 
 void Image_load_ppm_tail(Image* self, FILE* f, Format format, size_t new_width, size_t new_height, bool new_has_alpha,
                          uint8_t new_channel_width, uint64_t new_max_value)
 __CPROVER_requires(__CPROVER_is_fresh(self, sizeof(Image)))
-__CPROVER_requires(verif_exc == 0 && g_fpos == 0)
+__CPROVER_requires(verif_exc == 0 && g_fpos == 0 && g_alloc == 0 && g_freed == 0)
 __CPROVER_requires(1 <= new_width && new_width <= C06_DIM && 1 <= new_height && new_height <= C06_DIM)
 __CPROVER_requires(new_channel_width == C06_CW && format == C06_FORMAT)
 __CPROVER_requires(g_P < new_width * new_height && g_c < C06_D(new_has_alpha))
-__CPROVER_assigns(verif_exc, g_fpos, g_reads, g_v)
+__CPROVER_assigns(verif_exc, g_fpos, g_reads, g_v, g_alloc, g_freed)
+/* truncated file: the pixel buffer allocated for it is released again ("never a crash, leak or out-of-bounds access") */
+__CPROVER_ensures((verif_exc != 0 && g_alloc != 0) ==> g_freed == g_alloc)
 __CPROVER_assigns(self->width, self->height, self->has_alpha, self->channel_width, self->max_value, self->data.raw)
 /* which exceptions */
-__CPROVER_ensures(verif_exc == 0 || verif_exc == EXC_io_error || verif_exc == EXC_bad_alloc)
+__CPROVER_ensures(verif_exc == 0 || verif_exc == EXC_io_error || verif_exc == EXC_runtime_error || verif_exc == EXC_bad_alloc)
 /* truncated file: rejected, *this untouched */
 __CPROVER_ensures(verif_exc != 0 ==> (self->width == __CPROVER_old(self->width) && self->height == __CPROVER_old(self->height) &&
                                       self->has_alpha == __CPROVER_old(self->has_alpha) && self->channel_width == __CPROVER_old(self->channel_width) &&
